@@ -78,3 +78,61 @@ func VerifC13InjectB() {
 	nd.Assert((k1 == k2) == same, "C13-binary-keys-injective")
 	nd.Reach("end")
 }
+
+// vTypedKeyValue: a key attribute value of the given scalar type, with the meaning it must be compared by:
+// strings and binaries by their bytes (the strings include numeral look-alikes), numbers by numeric value
+// (the numerals include equal values in different notations and the two zeros).
+type vTypedVal struct {
+	item *types.Item
+	text string // S / B: the bytes; N: unused
+	num  int    // N: the value
+}
+
+func vTypedKeyValue(name, typ string) vTypedVal {
+	switch typ {
+	case "N":
+		numerals := []string{"0", "-0", "0.0", "10", "10.0", "1e1", "1", "-1", "1.0"}
+		values := []int{0, 0, 0, 10, 10, 10, 1, -1, 1}
+		k := nd.Choice(name+".numeral", len(numerals))
+		n := numerals[k]
+		return vTypedVal{item: &types.Item{N: &n}, num: values[k]}
+	case "B":
+		b := nd.Bytes(name+".b", 1)
+		return vTypedVal{item: &types.Item{B: b}, text: string(b)}
+	}
+	var s string
+	switch nd.Choice(name+".text", 3) {
+	case 0:
+		s = nd.StringN(name+".s", 1)
+	case 1:
+		s = "10"
+	case 2:
+		s = "10.0"
+	}
+	return vTypedVal{item: vS(s), text: s}
+}
+
+func (a vTypedVal) same(b vTypedVal, typ string) bool {
+	if typ == "N" {
+		return a.num == b.num
+	}
+	return a.text == b.text
+}
+
+// VerifC13InjectMixed: for every combination of hash and range key types (S, N, B independently) two key
+// tuples have the same internal key iff the hash values are equal and the range values are equal, each
+// compared the way its own declared type demands.
+func VerifC13InjectMixed() {
+	kinds := []string{"S", "N", "B"}
+	ht, rt := kinds[nd.Choice("hash-type", 3)], kinds[nd.Choice("range-type", 3)]
+	ks := keySchema{HashKey: "h", RangeKey: "r"}
+	defs := map[string]string{"h": ht, "r": rt}
+	h1, r1 := vTypedKeyValue("h1", ht), vTypedKeyValue("r1", rt)
+	h2, r2 := vTypedKeyValue("h2", ht), vTypedKeyValue("r2", rt)
+	k1, e1 := ks.GetKey(defs, map[string]*types.Item{"h": h1.item, "r": r1.item})
+	k2, e2 := ks.GetKey(defs, map[string]*types.Item{"h": h2.item, "r": r2.item})
+	nd.Assert(e1 == nil && e2 == nil, "C13-mixed-nokeyerr")
+	same := h1.same(h2, ht) && r1.same(r2, rt)
+	nd.Assert((k1 == k2) == same, "C13-mixed-type-keys-injective")
+	nd.Reach("end")
+}
